@@ -45,9 +45,10 @@ const (
 	KBreak
 	KContinue
 	KSwitch
+	KPory // poryswitch(KEY) { VAL: stmt  VAL { stmts } ... } - compile-time selection
 )
 
-var kindNames = []string{"cmd", "label", "if", "while", "dowhile", "break", "continue", "switch"}
+var kindNames = []string{"cmd", "label", "if", "while", "dowhile", "break", "continue", "switch", "poryswitch"}
 
 func (k StmtKind) String() string { return kindNames[k] }
 
@@ -63,6 +64,15 @@ type Stmt struct {
 	Cond    *Expr     `json:"cond,omitempty"` // while (nil = infinite) / do-while
 	Body    []*Stmt   `json:"body,omitempty"`
 	Sw      *Switch   `json:"sw,omitempty"`
+	PKey    string    `json:"pkey,omitempty"`
+	PCases  []*PCase  `json:"pcases,omitempty"`
+}
+
+// PCase is one case of a poryswitch statement.
+type PCase struct {
+	Val   string  `json:"val"`
+	Brace bool    `json:"brace,omitempty"`
+	Body  []*Stmt `json:"body,omitempty"`
 }
 
 type Switch struct {
@@ -160,6 +170,26 @@ type File struct {
 	MapScripts *MapScripts        `json:"mapscripts,omitempty"`
 	MapFirst   bool               `json:"map_first,omitempty"`
 	AutoVars   map[string]AutoVar `json:"autovars,omitempty"`
+	Switches   map[string]string  `json:"switches,omitempty"` // compile-time switches (-s)
+}
+
+// Selected returns the statements a poryswitch contributes under the file's switches:
+// the case equal to the switch value, else the '_' case, else nothing.
+func (f *File) Selected(s *Stmt) []*Stmt {
+	v, ok := f.Switches[s.PKey]
+	if ok {
+		for _, c := range s.PCases {
+			if c.Val == v {
+				return c.Body
+			}
+		}
+	}
+	for _, c := range s.PCases {
+		if c.Val == "_" {
+			return c.Body
+		}
+	}
+	return nil
 }
 
 // Entry is one place execution can start.
@@ -345,6 +375,20 @@ func (p *printer) stmt(s *Stmt) {
 		p.t("break")
 	case KContinue:
 		p.t("continue")
+	case KPory:
+		p.t("poryswitch", "(", s.PKey, ")", "{", NL)
+		for _, c := range s.PCases {
+			p.t(c.Val)
+			if c.Brace {
+				p.t("{")
+				p.block(c.Body)
+				p.t("}", NL)
+			} else {
+				p.t(":")
+				p.block(c.Body)
+			}
+		}
+		p.t("}")
 	case KSwitch:
 		p.t("switch", "(")
 		if s.Sw.Auto != nil {
